@@ -8,6 +8,14 @@
 
 namespace IncDecHelpers {
 
+namespace {
+// const オブジェクトに対する ++ / -- を拒否する（代入と同じ扱い）
+[[noreturn]] void reject_const_incdec(const std::string &target) {
+    error_msg(DebugMsgId::CONST_REASSIGN_ERROR, target.c_str());
+    throw std::runtime_error("Cannot modify const variable: " + target);
+}
+} // namespace
+
 int64_t evaluate_incdec(
     const ASTNode *node, Interpreter &interpreter,
     std::function<int64_t(const ASTNode *)> evaluate_expression_func) {
@@ -31,6 +39,11 @@ int64_t evaluate_incdec(
                 interpreter.find_variable(node->left->left->name);
             if (!ptr_var || ptr_var->type != TYPE_POINTER) {
                 throw std::runtime_error("Not a pointer variable");
+            }
+            // const T* 経由の (*ptr)++ は禁止
+            if (ptr_var->is_pointee_const) {
+                throw std::runtime_error(
+                    "Cannot modify value through pointer to const (const T*)");
             }
             ptr_value = ptr_var->value;
         } else {
@@ -73,6 +86,11 @@ int64_t evaluate_incdec(
             if (!target_var) {
                 throw std::runtime_error("Null pointer dereference");
             }
+        }
+
+        // 指し先が const オブジェクトの場合は変更不可
+        if (target_var->is_const) {
+            reject_const_incdec("*" + node->left->left->name);
         }
 
         // 型に応じてインクリメント/デクリメント
@@ -177,6 +195,12 @@ int64_t evaluate_incdec(
             error_msg(DebugMsgId::UNDEFINED_VAR_ERROR,
                       node->left->name.c_str());
             throw std::runtime_error("Undefined variable");
+        }
+
+        // const 変数は変更不可。ポインタ変数の is_const は指し先の const を
+        // 意味することがあるため、ポインタ自体の const (T* const) で判定する
+        if (var->type == TYPE_POINTER ? var->is_pointer_const : var->is_const) {
+            reject_const_incdec(node->left->name);
         }
 
         // 型に応じた処理
@@ -333,6 +357,11 @@ int64_t evaluate_incdec(
             throw std::runtime_error("Undefined struct member: " + member_name);
         }
 
+        // const 構造体のメンバー、または const メンバーは変更不可
+        if (var->is_const || it->second.is_const) {
+            reject_const_incdec(obj_name + "." + member_name);
+        }
+
         // 型に応じた処理
         if (it->second.type == TYPE_FLOAT) {
             float old_value = it->second.float_value;
@@ -404,6 +433,11 @@ int64_t evaluate_incdec(
         Variable *array_var = interpreter.find_variable(array_name);
         if (!array_var) {
             throw std::runtime_error("Undefined array variable: " + array_name);
+        }
+
+        // const 配列の要素は変更不可
+        if (array_var->is_const) {
+            reject_const_incdec(array_name);
         }
 
         // インデックスを評価
